@@ -488,7 +488,7 @@ func TestRevisitedStates(t *testing.T) {
 			}
 			return s
 		}
-		cycles, revisits, cyclesAfterCycle := 0, 0, 0
+		cycles, revisits, cyclesAfterCycle, noops := 0, 0, 0, 0
 		for i := gen.Uniform(rt, 8, 30, "steps"); i > 0; i-- {
 			if gen.Chance(rt, 65, "plain") {
 				change("p")
@@ -511,9 +511,17 @@ func TestRevisitedStates(t *testing.T) {
 			for k, v := range m.Model {
 				cpModel[k] = v
 			}
-			entry := gen.Pick(rt, []string{"Rollback", "RollbackTrie"}, "entry")
-			m.Logf("SaveRoot")
-			m.T.SaveRoot()
+			entry := gen.Pick(rt, []string{"Rollback", "RollbackTrie", "RollbackTrie(copy)"}, "entry")
+			var cpCopy wmpt.Node
+			if strings.HasPrefix(entry, "RollbackTrie(copy)") {
+				// the caller keeps the checkpoint as a copy of the root (taken here, possibly right after an earlier rollback)
+				lvl := gen.Pick(rt, []int{0, 1, 64}, "copylevel")
+				cpCopy = m.T.CopyRoot(lvl)
+				m.Logf("checkpoint = CopyRoot(%d)", lvl)
+			} else {
+				m.Logf("SaveRoot")
+				m.T.SaveRoot()
+			}
 			for j := gen.Uniform(rt, 1, 3, "nchanges"); j > 0; j-- {
 				change("c")
 			}
@@ -531,10 +539,26 @@ func TestRevisitedStates(t *testing.T) {
 			if gen.Chance(rt, 40, "gcbetween") {
 				m.GC()
 			}
+			lateSave := cpCopy != nil && gen.Chance(rt, 40, "latesave")
+			if lateSave {
+				// the caller marks the new state as its next checkpoint and then decides to go back to the older copy after
+				// all: root and weight come back (the new checkpoint call makes the library forget which nodes the commit
+				// created, so their removal is not expected here)
+				m.Logf("SaveRoot (after the commit)")
+				m.T.SaveRoot()
+			}
+			if cpCopy == nil && m.T.Weight() > 0 && gen.Chance(rt, 25, "noop") {
+				// a rollback to the root the trie is at: nothing to do, and the real rollback that follows is not affected
+				m.Logf("RollbackTrie(current root)")
+				m.T.RollbackTrie(wmpt.NewHashNode(append([]byte(nil), m.T.Root()...), m.T.Weight()))
+				noops++
+			}
 			m.Logf("%s", entry)
 			switch {
 			case entry == "Rollback":
 				m.T.Rollback()
+			case cpCopy != nil:
+				m.T.RollbackTrie(cpCopy)
 			case cpWeight == 0:
 				m.T.RollbackTrie(nil)
 			default:
@@ -550,6 +574,9 @@ func TestRevisitedStates(t *testing.T) {
 				m.Fail("%s: Weight() = %d, checkpoint weight %d", when, got, cpWeight)
 			}
 			for _, k := range created {
+				if lateSave {
+					break
+				}
 				if db.Has([]byte(k)) {
 					m.Fail("%s: node %x was created only by the rolled-back commit and is still in storage", when, k)
 				}
@@ -571,6 +598,9 @@ func TestRevisitedStates(t *testing.T) {
 		}
 		if revisits > 0 {
 			cls = append(cls, "whole-state-revisited")
+		}
+		if noops > 0 {
+			cls = append(cls, "rollback-to-the-current-root-before-the-real-one")
 		}
 		ev.Case(m.History(), cycles >= 2 && revisits > 0, cls...)
 	})
